@@ -1,6 +1,7 @@
 import Dmn.Model.Sexp
 import Dmn.Model.Eval
 import Dmn.Driver.Codec
+import Dmn.Model.NumD128
 
 /-! Driver handler for C01 / C13: `(c01 eval <fuel> <ast> (<ctx>…))` — the scope is the list of
 its contexts, bottom first. -/
@@ -42,14 +43,14 @@ def render (s : Scope) (o : Outcome (Value × Scope)) : String :=
 def runEval (fuel : Nat) (a : Ast) (s : Scope) : String :=
   if !Eval.buildOk a then "((builderror) (builderror))"
   else
-    let m := render s (Eval.eval NumOps.exact bifPosStub bifNamedStub fuel a s)
-    let d := render s (Eval.den NumOps.exact bifPosStub bifNamedStub fuel a s)
+    let m := render s (Eval.eval NumOps.d128 bifPosStub bifNamedStub fuel a s)
+    let d := render s (Eval.den NumOps.d128 bifPosStub bifNamedStub fuel a s)
     if m == d then s!"({m} {d})"
     else
       -- which of the three deviations is responsible (for the signature of a finding)
-      let v1 := render s (Eval.evalWith Eval.Variant.declaredOrder NumOps.exact bifPosStub bifNamedStub fuel a s)
-      let v2 := render s (Eval.evalWith Eval.Variant.productOnly NumOps.exact bifPosStub bifNamedStub fuel a s)
-      let v1b := render s (Eval.evalWith Eval.Variant.productOuterWins NumOps.exact bifPosStub bifNamedStub fuel a s)
+      let v1 := render s (Eval.evalWith Eval.Variant.declaredOrder NumOps.d128 bifPosStub bifNamedStub fuel a s)
+      let v2 := render s (Eval.evalWith Eval.Variant.productOnly NumOps.d128 bifPosStub bifNamedStub fuel a s)
+      let v1b := render s (Eval.evalWith Eval.Variant.productOuterWins NumOps.d128 bifPosStub bifNamedStub fuel a s)
       let why := (if m != v1 then "order " else "") ++ (if v1 != v1b then "empty-domain " else "") ++
         (if v1b != v2 then "shadowing " else "") ++ (if v2 != d then "index" else "")
       s!"({m} {d} ({why}))"
